@@ -41,6 +41,65 @@ PROPS = {
         "error = 0 iff measurement agrees (SE(3): equal translation and q_z = +-q_delta; SE(2): equal position, angle congruent mod 2pi).",
         level_note="Trusted: Lean kernel, Mathlib, translator (validated every run), chi2 harness (bit-exact comparison of the sum). Graph.calc_chi2 is a hand model (one line) tied by correspondence.",
     ),
+    "C03": dict(
+        modules=["GraphSlam.Props.C03"],
+        theorem_files=["GraphSlam/Props/C03/*.lean"],
+        scan_files=["GraphSlam/Real/Instance.lean", "GraphSlam/Core/*.lean", "GraphSlam/Model/Assembly.lean"],
+        needs_generated=True,
+        corr=[
+            ("harness.entry", "assembly", dict(quick=80, thorough=3000)),
+            ("harness.entry", "layer_a", dict(only=["BaseEdge"], quick=40, thorough=400)),
+        ],
+        search=("search.entry", "c03"),
+        always_search=True,
+        replay=("search.entry", "replay_generic"),
+        rule="stage-wise correspondence on random graphs (2d/3d/r2/r3/mixed worlds, shuffled/huge/plain ids, multi-edges, both vertex orders, landmark edges with offsets, "
+        "custom unary/binary/ternary edges with numerical and analytic Jacobians, 0..all vertices fixed, isolated fixed vertices, fix_first_pose on/off): contribs, accumulate (keys exact), "
+        "fill (zero pattern exact, fixed rows exact), spsolve residual, box-plus update; each stage fed the implementation's own upstream values; non-trivial = one graph",
+        assumptions=["real arithmetic", "spsolve returns the solution of the assembled system (its residual is checked on every recorded call; it is a parameter of the model)",
+                     "per-edge sum theorem: symmetric information matrix and pairwise distinct vertices within one edge (self-loop counterexample proved)"],
+        proved_level="partial",
+        unproved=["the last link 'dictionary -> dense H, b' (Model.fillHessian / fillGradient equal the dictionary values block by block) is tied by the exact correspondence check only; its theorem is not yet proved"],
+        technique="Lean 4 proof: induction over edge and contribution lists for the block dictionaries of a hand model mirroring graph.py, tied by stage-wise correspondence",
+        level_text="Proved for every edge list (any length, parallel edges, either vertex order, mixed dimensions, n-ary edges): the Hessian dictionary holds under (a,b), a<=b, the sum of contributions keyed (a,b) plus transposes of those keyed (b,a); "
+        "no key with a>b exists; the gradient dictionary and chi2 are plain sums; for symmetric Omega and distinct vertices one edge contributes exactly the (a,b) block of Jbar^T Omega Jbar and the a block of Jbar^T Omega e (ordered-pair sum), "
+        "with a proved counterexample for self-loop edges. PARTIAL: the dense fill step is checked by correspondence, not yet by theorem.",
+        level_note="Hand model (Model/Assembly.lean) tied by tools/harness/assembly.py; spsolve is a parameter.",
+    ),
+    "C06": dict(
+        modules=["GraphSlam.Props.C06"],
+        theorem_files=["GraphSlam/Props/C06/*.lean"],
+        scan_files=["GraphSlam/Core/*.lean", "GraphSlam/Model/Assembly.lean"],
+        corr=[("harness.entry", "assembly", dict(quick=80, thorough=3000))],
+        search=("search.entry", "c06"),
+        always_search=True,
+        replay=("search.entry", "replay_generic"),
+        rule="stage-wise correspondence as C03 (update stage: fixed poses compared bitwise, fixed rows/cols of H exactly identity/zero, b exactly zero) plus, every run, direct before/after "
+        "comparison on the real optimiser in scenarios normal / isolated fixed vertex / unanchored component (singular) / all fixed / diverging / none fixed, both fix_first_pose values",
+        assumptions=["the solver is an arbitrary function (no assumption)"],
+        technique="Lean 4 proof: invariant by induction over iterations of a hand model mirroring the update loop, solver universally quantified; tied by correspondence",
+        level_text="Proved: for any solver behaviour, any number of iterations, any pose type, a fixed vertex has exactly the same pose (Model.applyDx mirrors graph.py's update loop after the C06 repair); "
+        "free vertices get pose [+] dx[g:g+c]; fix_first_pose sets exactly the first flag; the fixed index set is exactly the indices of flagged vertices. "
+        "That the free block solves the reduced system relies on C03's fill step (correspondence-checked: fixed rows/cols exactly identity).",
+        level_note="Hand model tied by tools/harness/assembly.py and the direct search; the code was repaired first (known_findings.json: fixed C06 4d1b12c).",
+    ),
+    "C12": dict(
+        modules=["GraphSlam.Props.C12"],
+        theorem_files=["GraphSlam/Props/C12/*.lean"],
+        scan_files=["GraphSlam/Core/*.lean", "GraphSlam/Model/Ctl.lean"],
+        corr=[("harness.entry", "ctl", dict())],
+        search=("search.entry", "c12"),
+        always_search=True,
+        replay=("search.entry", "replay_generic"),
+        rule="every field of OptimizationResult (converged, num_iterations, initial/final chi2, per-iteration chi2 and rel_diff bit patterns, None pattern, list length, IndexError for max_iter=0) compared exactly with "
+        "Model.optimizeCtl on the chi2 sequence the real run consumed: real graphs x tol x max_iter x verbose, boundary tol values (each observed rel_diff and its float neighbours), synthetic sequences "
+        "(plateau, increase, NaN/inf, zero, negative, chi2_prev+eps=0)",
+        assumptions=["chi2 values themselves are C02's subject; this property is about the control flow and the report"],
+        technique="Lean 4 proof: loop invariant by induction for a line-by-line model of the optimize loop, closed form of the report; tied by exact correspondence",
+        level_text="Proved for every chi2 sequence, tol, eps, max_iter>=1 and ANY scalar type (so also Float with NaN): closed form of the whole report; the run ends at the first i in 1..max_iter-1 where chi2 did not increase and the relative decrease is < tol, else at max_iter; "
+        "converged <-> the test holds at the end index; num_iterations, initial_chi2=c 0, final_chi2=c(end), len(iteration_results), iteration_results[j].chi2=c(j+1); max_iter=0 raises IndexError; over R: tol=0 and chi2>=0 never stops early; split runs consume the same chi2 sequence.",
+        level_note="State-level 'no hidden state / verbose has no effect' is checked on the real code by the search every run (bitwise pose comparison), not proved.",
+    ),
     "C09": dict(
         modules=["GraphSlam.Props.C09"],
         theorem_files=["GraphSlam/Props/C09/*.lean", "GraphSlam/Props/C10/SE3Boxplus.lean"],
